@@ -19,7 +19,7 @@ RULE = ("random layout trees (struct/union/array/flexible with gaps and overlaps
         "combinations. distinct/non-trivial = distinct layout trees with >= 2 fields, or enum classes.")
 ASSUMPTIONS = ["layoutref (this file): struct running sum, union offset 0 / max size, array i*w, flexible as given",
                "Python's own enum.Flag with the same members and boundary is the oracle for flag operators; for KEEP/EJECT boundaries the shape width is the bit length of the highest flag (where Python's and Amaranth's notion of 'all bits' coincide)",
-               "the synthesis (RTLIL) side of view assignment is covered by C04's co-simulation of generated designs that use views"]
+               "the synthesis side is the emitted RTLIL evaluated by vf/rtlil (field reads and field assignments of the same view module)"]
 REQUIRED_MONITORS = ["slot_commit"]
 MIN_NONTRIVIAL = {"quick": 300, "thorough": 3000}
 NSHARDS = 16
@@ -336,17 +336,12 @@ def view_path(view, path):
     return obj
 
 
-def check_sim(l, rng, out):
-    """View fields in simulation: read == slice reinterpreted; write through a field (circuit and
-    ctx.set) changes only that field."""
+def build_view_module(l):
+    """Module with: one comb output per leaf field of the view `sig`; a register `reg` loaded with
+    `rawin` (load) or assigned through the field selected by `sel` with `vin`; `tbv` for ctx.set."""
     from amaranth.hdl import Module, Signal, Shape, ClockDomain, Value
-    from amaranth.sim import Simulator
-    if is_leaf(l) or lsize(l) == 0:
-        return
     L = real(l)
     lp = [x for x in leaf_paths(l)]
-    if not lp:
-        return
     size = lsize(l)
     m = Module()
     cd = ClockDomain("sync", reset_less=True)
@@ -372,6 +367,84 @@ def check_sim(l, rng, out):
             for i, (path, leaf, off) in enumerate(lp):
                 with m.Case(i):
                     m.d.sync += Value.cast(view_path(reg, path)).eq(vin)
+    return m, cd, sig, reg, tbv, outs, sel, vin, load, rawin, lp
+
+
+def check_synth(l, rng, out):
+    """The same view module through the backend: the emitted RTLIL, evaluated independently, reads
+    every field as the reinterpreted slice and a field assignment changes only that field's bits."""
+    from amaranth.hdl import Value
+    from amaranth.hdl._ir import PortDirection as PD
+    from amaranth.back import rtlil
+    from ..rtlil import parse as P, eval as E
+    if is_leaf(l) or lsize(l) == 0:
+        return
+    m, cd, sig, reg, tbv, outs, sel, vin, load, rawin, lp = build_view_module(l)
+    if not lp:
+        return
+    size = lsize(l)
+    regout = Value.cast(reg)
+    ports = {"sig": (Value.cast(sig), PD.Input), "sel": (sel, PD.Input), "vin": (vin, PD.Input), "load": (load, PD.Input),
+             "rawin": (rawin, PD.Input), "clk": (cd.clk, PD.Input), "reg": (regout, PD.Output)}
+    for k, o in enumerate(outs):
+        ports[f"o{k}"] = (o, PD.Output)
+    try:
+        ev = E.Evaluator(P.parse(rtlil.convert(m, ports=ports, emit_src=False)))
+    except (P.ParseError, E.EvalError) as ex:
+        raise V("synthesis-rtlil-unreadable", error=str(ex)[:200])
+    for n in ("sel", "vin", "load", "rawin", "clk", "sig"):
+        try:
+            ev.set(n, 0)
+        except E.EvalError:
+            pass
+    ev.step()
+    raws = raws_for(l, rng)
+    if len(raws) > 32:
+        raws = rng.sample(raws, 32)
+    for raw in raws:
+        ev.set("sig", raw)
+        ev.step()
+        for k, (path, leaf, off) in enumerate(lp):
+            w = lsize(leaf)
+            if w == 0:
+                continue
+            exp = (raw >> off) & ((1 << w) - 1)
+            gv, gx = ev.get(f"o{k}")
+            out["extra"]["synth_field_reads"] += 1
+            if gx or gv != exp:
+                raise V("view-field-read-in-netlist", raw=raw, path=list(path), got=gv, undef=gx, expected=exp)
+    for raw in raws[:12]:
+        i = rng.randrange(len(lp))
+        path, leaf, off = lp[i]
+        w = lsize(leaf)
+        v = rng.getrandbits(8)
+        exp = (raw & ~(((1 << w) - 1) << off)) | ((v & ((1 << w) - 1)) << off)
+        ev.set("load", 1)
+        ev.set("rawin", raw)
+        ev.step()
+        ev.set("clk", 1); ev.step(); ev.set("clk", 0); ev.step()
+        ev.set("load", 0)
+        ev.set("sel", i)
+        ev.set("vin", v)
+        ev.step()
+        ev.set("clk", 1); ev.step(); ev.set("clk", 0); ev.step()
+        gv, gx = ev.get("reg")
+        out["extra"]["synth_field_writes"] += 1
+        if gx or gv != exp:
+            raise V("view-field-assignment-in-netlist", raw=raw, path=list(path), value=v, got=gv, undef=gx, expected=exp)
+
+
+def check_sim(l, rng, out):
+    """View fields in simulation: read == slice reinterpreted; write through a field (circuit and
+    ctx.set) changes only that field."""
+    from amaranth.hdl import Value
+    from amaranth.sim import Simulator
+    if is_leaf(l) or lsize(l) == 0:
+        return
+    m, cd, sig, reg, tbv, outs, sel, vin, load, rawin, lp = build_view_module(l)
+    if not lp:
+        return
+    size = lsize(l)
     sim = Simulator(m)
     raws = raws_for(l, rng)
     if len(raws) > 64:
@@ -558,7 +631,7 @@ def run_shard(spec):
     instrument.install_slot_invariant()
     out = {"evaluations": 0, "fps": set(), "hist": {}, "violations": [], "samples": [], "exhaustive": [],
            "extra": {"fields_read": 0, "view_reads": 0, "view_writes": 0, "flag_ops": 0, "skipped_invalid_enum_bits": 0,
-                     "layouts": 0}}
+                     "layouts": 0, "synth_field_reads": 0, "synth_field_writes": 0}}
     rng = derive_rng("c15", spec["seed"], spec["shard"])
     for n in range(spec["layouts"]):
         l = gen_layout(rng, rng.randrange(1, spec["depth"] + 1))
@@ -566,7 +639,7 @@ def run_shard(spec):
             continue
         out["extra"]["layouts"] += 1
         for label, fn in (("static", lambda: check_static(l, rng, out)), ("const", lambda: check_const(l, rng, out)),
-                          ("sim", lambda: check_sim(l, rng, out))):
+                          ("sim", lambda: check_sim(l, rng, out)), ("synth", lambda: check_synth(l, rng, out))):
             try:
                 fn()
             except V as v:
@@ -605,7 +678,7 @@ def run_shard(spec):
 
 def finalize(m, tier, seed):
     if not m["violations"]:
-        for k in ("fields_read", "view_reads", "view_writes", "flag_ops"):
+        for k in ("fields_read", "view_reads", "view_writes", "flag_ops", "synth_field_reads", "synth_field_writes"):
             if m["extra"].get(k, 0) == 0:
                 m["inconclusive"].append(f"monitor never reached: {k}")
 
@@ -619,10 +692,11 @@ def replay(rec):
         return 0
     rng = derive_rng("c15-replay")
     out = {"evaluations": 0, "hist": {}, "fps": set(),
-           "extra": {"fields_read": 0, "view_reads": 0, "view_writes": 0, "flag_ops": 0, "skipped_invalid_enum_bits": 0}}
+           "extra": {"fields_read": 0, "view_reads": 0, "view_writes": 0, "flag_ops": 0, "skipped_invalid_enum_bits": 0,
+                     "synth_field_reads": 0, "synth_field_writes": 0}}
     hits = []
     for label, fn in (("static", lambda: check_static(l, rng, out)), ("const", lambda: [check_const(l, rng, out) for _ in range(10)]),
-                      ("sim", lambda: check_sim(l, rng, out))):
+                      ("sim", lambda: check_sim(l, rng, out)), ("synth", lambda: check_synth(l, rng, out))):
         try:
             fn()
         except V as v:
